@@ -1380,7 +1380,7 @@ func (w *wworld) getsecret() {
 
 func (w *wworld) getfile() {
 	w.op("getfile", "stream.GetFile", func() (string, error) {
-		dir, err := os.MkdirTemp(workRoot(), "c13f-")
+		dir, err := os.MkdirTemp(workRoot(), scratchPrefix("c13f"))
 		if err != nil {
 			return "", err
 		}
@@ -2178,7 +2178,7 @@ func runChildJobs(c *Ctx, jobs []childJob, cases *[]Case) error {
 		return nil
 	}
 	root := workRoot()
-	dir, err := os.MkdirTemp(root, "c13-")
+	dir, err := os.MkdirTemp(root, scratchPrefix("c13"))
 	if err != nil {
 		return err
 	}
